@@ -253,8 +253,22 @@ fn poly_case(out: &mut Out, h: usize, w: usize, pts: &[(i64, i64)]) {
     finish_draw(out, &req, "poly", &written, &panic, margin, bounds, None, pts.len() >= 3);
 }
 
-fn filliter_case(out: &mut Out, pts: &[(i64, i64)]) {
+/// `allow_slow`: a polygon of zero width with a non-horizontal edge (all points on one vertical
+/// line) makes `FillIter::next` walk the cursor through the whole `i32` range once per scanline
+/// (`cursor.x` never equals `bounds.right()`): ~2^32 iterations per scanline in release, an
+/// arithmetic-overflow panic with overflow checks. No pixel is yielded, so this is not a
+/// violation of the property, but it would dominate the run time; such polygons are skipped
+/// unless `allow_slow` (one fixed case in the thorough tier, timed).
+fn filliter_case(out: &mut Out, pts: &[(i64, i64)], allow_slow: bool) {
     let req = format!("# filliter {}", fmt_pts(pts));
+    let zero_width = !pts.is_empty()
+        && pts.iter().all(|p| p.1 == pts[0].1)
+        && pts.iter().any(|p| p.0 != pts[0].0);
+    if zero_width && !allow_slow {
+        out.bucket("filliter_zero_width_skipped");
+        return;
+    }
+    let t0 = std::time::Instant::now();
     let poly: Vec<Point> = pts.iter().map(|p| Point::from_yx(p.0 as i32, p.1 as i32)).collect();
     let (t, b) = (pts.iter().map(|p| p.0).min().unwrap_or(0), pts.iter().map(|p| p.0).max().unwrap_or(0));
     let (l, r) = (pts.iter().map(|p| p.1).min().unwrap_or(0), pts.iter().map(|p| p.1).max().unwrap_or(0));
@@ -278,6 +292,9 @@ fn filliter_case(out: &mut Out, pts: &[(i64, i64)]) {
                 }
             }
             out.bucket(if ps.is_empty() { "filliter_empty" } else { "filliter_nonempty" });
+            if zero_width {
+                out.note(&format!("fill_iter on the zero-width polygon {} took {:.1} s and yielded {} points", fmt_pts(pts), t0.elapsed().as_secs_f64(), ps.len()));
+            }
             (format!("n={}", ps.len()), fail)
         }
         Err(m) => (format!("panic {m}"), Some(format!("fill_iter panicked: {m}"))),
@@ -430,9 +447,12 @@ fn run(args: &Args) {
             _ => {
                 let n = rng.usize_below(7);
                 let pts: Vec<(i64, i64)> = (0..n).map(|_| (rng.range_i64(-6, 12), rng.range_i64(-6, 12))).collect();
-                filliter_case(&mut out, &pts);
+                filliter_case(&mut out, &pts, false);
             }
         }
+    }
+    if args.thorough {
+        filliter_case(&mut out, &[(0, 0), (1, 0)], true);
     }
     out.note("drawing calls run on a window of a larger zeroed buffer (margin 3) so that a write outside the image is observable");
     out.finish("model answer (contour lists; written-pixel sets + panic flag for draw_line width 1, fill_rect, stroke_rect) must equal the implementation's; oracle: contour points in-image, foreground, adjacent to background/edge, every component has an outer contour (List mode); drawing never touches the margin and stays inside the shape's bounds");
